@@ -10,6 +10,9 @@ import (
 // VerifyInputConfigs verifies a list of input configurations
 func VerifyInputConfigs(inputConfigs []bconfig.LogInputConfigHolder, schema base.LogSchema, header string) error {
 	for i, sc := range inputConfigs {
+		if sc.Value == nil {
+			return fmt.Errorf("%s[%d] is unspecified", header, i)
+		}
 		err := sc.Value.VerifyConfig(schema)
 		if err != nil {
 			return fmt.Errorf("%s[%d] %s: %w", header, i, sc.Location, err)
